@@ -189,28 +189,20 @@ impl BitWrite for BitBuffer {
 
     #[inline]
     fn write_bits(&mut self, src: &[u8]) -> Result<(), Error> {
-        self.ensure_can_write_additional_bits(src.len() * BYTE_LEN);
-        BitWrite::write_bits(&mut (&mut self.buffer[..], &mut self.write_position), src)
+        self.write_bits_with_offset_len(src, 0, src.len() * BYTE_LEN)
     }
 
     #[inline]
     fn write_bits_with_offset(&mut self, src: &[u8], src_bit_offset: usize) -> Result<(), Error> {
-        self.ensure_can_write_additional_bits(src.len() * BYTE_LEN - src_bit_offset);
-        BitWrite::write_bits_with_offset(
-            &mut (&mut self.buffer[..], &mut self.write_position),
-            src,
-            src_bit_offset,
-        )
+        let src_bit_len = (src.len() * BYTE_LEN)
+            .checked_sub(src_bit_offset)
+            .ok_or_else(Error::insufficient_data_in_source_buffer)?;
+        self.write_bits_with_offset_len(src, src_bit_offset, src_bit_len)
     }
 
     #[inline]
     fn write_bits_with_len(&mut self, src: &[u8], bit_len: usize) -> Result<(), Error> {
-        self.ensure_can_write_additional_bits(bit_len);
-        BitWrite::write_bits_with_len(
-            &mut (&mut self.buffer[..], &mut self.write_position),
-            src,
-            bit_len,
-        )
+        self.write_bits_with_offset_len(src, 0, bit_len)
     }
 
     #[inline]
@@ -220,6 +212,10 @@ impl BitWrite for BitBuffer {
         src_bit_offset: usize,
         src_bit_len: usize,
     ) -> Result<(), Error> {
+        // validate the source before growing, so that a failed write leaves the buffer untouched
+        if src.len() * BYTE_LEN < src_bit_offset.saturating_add(src_bit_len) {
+            return Err(Error::insufficient_data_in_source_buffer());
+        }
         self.ensure_can_write_additional_bits(src_bit_len);
         BitWrite::write_bits_with_offset_len(
             &mut (&mut self.buffer[..], &mut self.write_position),
